@@ -15,7 +15,8 @@ structure PoolWF (p : Pool) : Prop where
   rpbPos  : ∀ r ∈ p.rules, 0 < r.rpb
   totPos  : ∀ r ∈ p.rules, 0 < r.total
   rpsNN   : ∀ r ∈ p.rules, 0 ≤ r.rps.raw
-  user    : isModuleAcc p.creator = false
+  /-- the creator is a user account, or the distribution module account (community-pool farms) -/
+  user    : isModuleAcc p.creator = false ∨ p.creator = distrAcc
 
 /-- the timing facts of one pool at the current height -/
 structure PoolTime (h : Int) (p : Pool) : Prop where
@@ -68,6 +69,17 @@ structure Inv (s : State) : Prop where
   core   : Core s
   stakes : Stakes s
   modacc : C05.ModuleAccount s
+  /-- every escrow info and gov proposal on record names a user account as proposer -/
+  cpu    : CpUsers s
+
+/-- the bundle without the proposer clause (what the intermediate states of gov's EndBlocker keep) -/
+structure Inv0 (s : State) : Prop where
+  core   : Core s
+  stakes : Stakes s
+  modacc : C05.ModuleAccount s
+
+theorem Inv.inv0 {s : State} (h : Inv s) : Inv0 s := ⟨h.core, h.stakes, h.modacc⟩
+theorem Inv0.withUsers {s : State} (h : Inv0 s) (hu : CpUsers s) : Inv s := ⟨h.core, h.stakes, h.modacc, hu⟩
 
 /-! ### ghost bookkeeping -/
 
